@@ -8,6 +8,7 @@ import GoZero.C05.ProofsSim
 import GoZero.C05.Props
 import GoZero.C05.ProofsWG
 import GoZero.C05.ModelCond
+import GoZero.C05.ModelOpts
 namespace GoZero.C05
 
 /-- **Simulation.**  Every reachable state of ModelTL (any capacity, any number of callers, any order of
@@ -292,5 +293,47 @@ theorem pool_create_panics_exhaust (limit maxAge : Nat) :
   rw [h0, h]
   refine ⟨rfl, rfl, ?_⟩
   simp [Pool.get, getLoop]
+
+/-! ## delegating entry points -/
+
+/-- **Every entry point that hands on its own `opts...` at every hop gets the capacity of ITS caller's options**
+(whatever the list: none, several `WithWorkers`, values ≤ 0, `UnlimitedWorkers`).  The chains of the real entry points
+are read from the source (`tie_entry_chains`). -/
+theorem entry_cap_own (chain : List Fwd) (h : ∀ f ∈ chain, f = .own) (opts : List WOpt) :
+    capThrough chain opts = streamCap opts := by
+  unfold capThrough
+  congr 1
+  induction chain generalizing opts with
+  | nil => rfl
+  | cons f fs ih =>
+    have hf := h f (List.mem_cons_self ..)
+    subst hf
+    exact ih (fun g hg => h g (List.mem_cons_of_mem _ hg)) opts
+
+/-- a hop that drops the options gives every caller the default of 16 workers, whatever was asked for: with
+`WithWorkers(4)` five mappers can be inside at once (seeded change C05-11, mutation m4). -/
+theorem entry_cap_dropped (pre post : List Fwd) (hpost : ∀ f ∈ post, f = .own) (opts : List WOpt) :
+    capThrough (pre ++ .nothing :: post) opts = some 16 := by
+  unfold capThrough
+  rw [List.foldl_append, List.foldl_cons]
+  have : ∀ (l : List Fwd), (∀ f ∈ l, f = .own) → ∀ o, l.foldl (fun o f => f.apply o) o = o := by
+    intro l
+    induction l with
+    | nil => intros; rfl
+    | cons f fs ih =>
+      intro hl o
+      have hf := hl f (List.mem_cons_self ..)
+      subst hf
+      exact ih (fun g hg => hl g (List.mem_cons_of_mem _ hg)) o
+  rw [this post hpost]
+  rfl
+
+/-- `Finish` / `FinishVoid` with k functions: the capacity is `max k 1`, whatever else is in the chain below. -/
+theorem entry_cap_finish (k : Int) (post : List Fwd) (hpost : ∀ f ∈ post, f = .own) (opts : List WOpt) :
+    capThrough (.fixed k :: post) opts = streamCap [.withWorkers k] :=
+  entry_cap_own post hpost _
+
+example : capThrough [.own, .own] [.withWorkers 4] = some 4 ∧ capThrough [.nothing, .own] [.withWorkers 4] = some 16 := by
+  decide
 
 end GoZero.C05
